@@ -53,9 +53,12 @@ def _guarded(check):
     def run(case):
         from . import build
         try:
-            build.set_usage(int(digest(case)[:4], 16) >> 3)
+            dg = digest(case)
+            build.set_usage(int(dg[:4], 16) >> 3)
+            build.set_environ(int(dg[4:8], 16) >> 2)
         except Exception:      # noqa: BLE001
             build.set_usage(0)
+            build.set_environ(0)
         try:
             return check(case)
         except (PropertyViolation, HarnessError, Discard):
@@ -209,6 +212,89 @@ def _worker_inner(task):
                 "failures": [], "error": traceback.format_exc()}
 
 
+def _run_tasks(tasks, nproc):
+    ctx = multiprocessing.get_context("fork")
+    results = []
+    sys.stdout.flush()
+    with ctx.Pool(min(nproc, len(tasks)) or 1) as pool:
+        for res in pool.imap_unordered(_worker, tasks, chunksize=1):
+            results.append(res)
+    return results
+
+
+# ---- a share of every check also runs in an interpreter started with -O (assert statements compiled out,
+# __debug__ False): a supported way of running Python in which every listed property has to hold as well
+OPT_SHARDS = int(os.environ.get("VERIF_OPT_SHARDS", "4"))
+
+
+def _mark_opt(f):
+    f = dict(f)
+    f["opt"] = True
+    f["message"] = "[python -O] " + f["message"]
+    return f
+
+
+def _start_opt_child(mod_name, prop, tier, only):
+    import subprocess
+    if sys.flags.optimize or OPT_SHARDS <= 0 or os.environ.get("VERIF_OPT_CHILD"):
+        return None
+    out = os.path.join(os.environ[env._BASE_ENV], "opt-child-%d.json" % os.getpid())
+    cmd = [sys.executable, "-O", os.path.join(env.VERIF_ROOT, "run_check.py"), prop, "--tier", tier,
+           "--opt-child", out]
+    if only:
+        cmd += ["--only", ",".join(sorted(only))]
+    log = open(out + ".log", "w")
+    proc = subprocess.Popen(cmd, stdout=log, stderr=subprocess.STDOUT,
+                            env=dict(os.environ, VERIF_OPT_CHILD="1"))
+    return proc, out, log
+
+
+def _finish_opt_child(child, prop):
+    proc, out, log = child
+    rc = proc.wait()
+    log.close()
+    if rc != 0 or not os.path.exists(out):
+        with open(out + ".log") as f:
+            sys.stderr.write("--- python -O child of %s ---\n%s\n" % (prop, f.read()[-3000:]))
+        env.harness_exit("the python -O share of %s failed outside the oracle (rc=%s)" % (prop, rc))
+    with open(out) as f:
+        return json.load(f)
+
+
+def run_opt_child(mod_name, tier, seed, only, out):
+    """Entry of the -O share: the same sub-checks, other shard seeds, a quarter of the budget."""
+    if not sys.flags.optimize:
+        env.harness_exit("--opt-child needs an interpreter started with -O")
+    mod = importlib.import_module(mod_name)
+    prop = mod.PROPERTY
+    env.make_base_tmp()
+    try:
+        subs = [s for s in mod.SUBCHECKS if (only is None or s.name in only) and tier in s.tiers]
+        tasks = []
+        for sub in subs:
+            n = sub.budget(tier)
+            if sub.strategy is not None:
+                nshards = max(1, min(sub.shards, NPROC, n))
+                per = int(math.ceil(n / nshards))
+                for sh in range(min(OPT_SHARDS, nshards)):
+                    tasks.append((mod_name, sub.name, tier, seed, 1000 + sh, nshards, per))
+            else:
+                nshards = max(1, min(sub.shards, NPROC))
+                for sh in range(0, nshards, max(1, NPROC // OPT_SHARDS)):
+                    tasks.append((mod_name, sub.name, tier, seed, sh, nshards, 0))
+        reg_fail, n_reg = run_regress(mod, prop)
+        results = _run_tasks(tasks, OPT_SHARDS)
+        errors = [r for r in results if r["error"]]
+        if errors:
+            sys.stderr.write(errors[0]["error"][-3000:] + "\n")
+            env.harness_exit("%d shard(s) of %s failed outside the oracle under python -O" % (len(errors), prop))
+        with open(out, "w") as f:
+            json.dump({"results": results, "reg_fail": reg_fail, "n_reg": n_reg}, f)
+    finally:
+        env.remove_base_tmp()
+    return 0
+
+
 def load_known(prop):
     path = os.path.join(env.VERIF_ROOT, "known_findings.json")
     if not os.path.exists(path):
@@ -283,18 +369,24 @@ def _run_property(mod, mod_name, prop, tier, seed, timer, only):
                 tasks.append((mod_name, sub.name, tier, seed, sh, nshards, 0))
 
     all_fail = []          # (sub_name, failure)
+    child = _start_opt_child(mod_name, prop, tier, only)
     try:
         reg_fail, n_reg = run_regress(mod, prop)
     except HarnessError as exc:
         env.harness_exit(str(exc))
     all_fail.extend(reg_fail)
 
-    ctx = multiprocessing.get_context("fork")
-    results = []
-    sys.stdout.flush()
-    with ctx.Pool(min(NPROC, len(tasks)) or 1) as pool:
-        for res in pool.imap_unordered(_worker, tasks, chunksize=1):
-            results.append(res)
+    results = _run_tasks(tasks, NPROC)
+    n_opt = 0
+    if child is not None:
+        opt = _finish_opt_child(child, prop)
+        for sub_name, f in opt["reg_fail"]:
+            all_fail.append((sub_name, _mark_opt(f)))
+        n_reg += opt["n_reg"]
+        for r in opt["results"]:
+            r["failures"] = [_mark_opt(f) for f in r["failures"]]
+            n_opt += r["rec"]["evaluations"]
+            results.append(r)
 
     errors = [r for r in results if r["error"]]
     if errors:
@@ -365,7 +457,8 @@ def _run_property(mod, mod_name, prop, tier, seed, timer, only):
             lines.append("KNOWN-FINDING: property=%s %s" % (prop, e.get("what", cls)))
             continue
         n_viol += 1
-        path = write_replay(prop, sub_name, f["clause"], f["message"], f["case"])
+        path = write_replay(prop, sub_name, f["clause"], f["message"], f["case"],
+                            extra={"interpreter": "-O"} if f.get("opt") else None)
         sys.stderr.write("violation %s/%s [%s]: %s\n" % (prop, sub_name, f["clause"], f["message"][:600]))
         lines.append("VIOLATION property=%s replay=%s" % (prop, path))
 
@@ -378,6 +471,7 @@ def _run_property(mod, mod_name, prop, tier, seed, timer, only):
         "exhaustive_subdomains": [s.name for s in subs if per_sub[s.name].exhaustive],
         "subchecks": sub_cov,
         "regression_inputs_replayed": n_reg,
+        "evaluations_under_python_O": n_opt,
         "known_findings_reproduced": n_known,
         "violation_classes": [{"subcheck": k[0], "class": k[1],
                                "message": v["message"][:300]} for k, v in sorted(buckets.items())],
